@@ -485,16 +485,31 @@ def b64_helpers_scope():
     (block / threshold sizes), for bytes, bytearray and streams at position 0 / middle / end."""
     from sharepoint2text.parsing.extractors import serialization as S
     import base64
+    # round 8: the helpers are located by their role in the wire format (contracts/c05roles.py), not by name: a renamed private
+    # helper is still exercised; a helper that cannot be located is replaced by the same payload through the public API
+    # (the harness's own failed lookup must never be reported as the library's failure)
+    try:
+        from contracts.c05roles import b64_roles
+        with open(S.__file__, encoding="utf-8") as fh:
+            roles = b64_roles(fh.read())
+    except Exception:  # noqa
+        roles = {}
+    helper = lambda canon: getattr(S, roles.get(canon, canon) or "", None) if (roles.get(canon, canon)) else None
+    enc_b, dec_b, enc_io, dec_io = (helper(n_) for n_ in ("_bytes_to_base64", "_base64_to_bytes", "_bytesio_to_base64", "_base64_to_bytesio"))
     sizes = {0, 1, 2, 3, 4, 5, 6, 7, 57, 58, 76, 77, 255, 256, 1023, 1025, 4097, 65537}
     for c in module_int_constants(S):
         sizes |= {c - 1, c, c + 1, c + 2, 2 * c, 2 * c + 1, 3 * c + 1}
     for n in sorted(x for x in sizes if x >= 0):
         data = _pattern(n)
         want = base64.b64encode(data).decode("ascii")
-        for label, arg in (("bytes", data), ("bytearray", bytearray(data))):
+        if not (callable(enc_b) and callable(dec_b)):
+            api = b64_api_level(n)
+            if api:
+                return api
+        for label, arg in (("bytes", data), ("bytearray", bytearray(data))) if callable(enc_b) and callable(dec_b) else ():
             try:
-                enc = S._bytes_to_base64(arg)
-                back = S._base64_to_bytes(enc)
+                enc = enc_b(arg)
+                back = dec_b(enc)
             except Exception as e:  # noqa
                 return {"target": "serialization._bytes_to_base64", "inputs": {"kind": label, "length": n}, "expected": "base64 text that decodes to the payload",
                         "observed": f"{type(e).__name__}: {e}"}
@@ -502,12 +517,16 @@ def b64_helpers_scope():
                 return {"target": "serialization._bytes_to_base64", "inputs": {"kind": label, "length": n, "payload": "bytes(range(256)) repeated"},
                         "expected": "the base64 text of the payload; _base64_to_bytes restores all of it",
                         "observed": f"restored {len(back)} of {n} bytes; text length {len(enc)} vs {len(want)}"}
-        for pos in sorted({0, n // 2, n}):
+        if not (callable(enc_io) and callable(dec_io)):
+            api = b64_api_level_stream(n)
+            if api:
+                return api
+        for pos in sorted({0, n // 2, n}) if callable(enc_io) and callable(dec_io) else ():
             buf = io.BytesIO(data)
             buf.seek(pos)
             try:
-                enc = S._bytesio_to_base64(buf)
-                back = S._base64_to_bytesio(enc)
+                enc = enc_io(buf)
+                back = dec_io(enc)
             except Exception as e:  # noqa
                 return {"target": "serialization._bytesio_to_base64", "inputs": {"length": n, "position": pos}, "expected": "base64 text of the whole payload",
                         "observed": f"{type(e).__name__}: {e}"}
@@ -523,6 +542,26 @@ def b64_api_level(n):
     from sharepoint2text.parsing.extractors.data_types import RtfContent, RtfImage
     x = RtfContent(images=[RtfImage(image_type="png", data=_pattern(n), image_index=1)])
     return check_instance(x, {"builder": "RtfContent(images=[RtfImage(data=<payload>)])", "payload_length": n})
+
+
+def b64_api_level_stream(n):
+    """A stream payload of the given size through the public API, at three cursor positions (used when a stream helper of
+    serialization.py cannot be located)."""
+    from sharepoint2text.parsing.extractors.data_types import EmailAttachment
+    for pos in sorted({0, n // 2, n}):
+        buf = io.BytesIO(_pattern(n))
+        buf.seek(pos)
+        try:
+            x = EmailAttachment(filename="a.bin", mime_type="application/octet-stream", data=buf)
+        except Exception:  # noqa  (constructor signature changed: not this scope's business)
+            return None
+        fail = check_instance(x, {"builder": "EmailAttachment(data=<stream>)", "payload_length": n, "position": pos})
+        if fail:
+            return fail
+        if buf.tell() != pos:
+            return {"target": "serialize_extraction(EmailAttachment)", "inputs": {"payload_length": n, "position": pos}, "expected": "stream position restored",
+                    "observed": f"position {buf.tell()}"}
+    return None
 
 
 NORM_TOKENS = [" ", "\n", "\t", "﻿", " ", "​", "\x00", "x", "é"]
